@@ -30,6 +30,75 @@ Definition qmax0 (a : Q) : Q := if Qlt_le_dec 0 a then a else 0.    (* python ma
    detector.pixel.array += detector.charge.array *)
 Definition collect (pixel charge : Q) : Q := pixel + charge.
 
+(* What `detector.charge.array` is at collection time (pyxel/data_structure/charge.py).  The generated charge
+   is held as an array (add_charge_array on an empty particle frame: `_array += array`), as particles
+   (add_charge / add_charge_dataframe: rows of the DataFrame with a position and a number of electrons) or both
+   (an array met by particles is turned into particles at the pixel centres and vice versa); the property
+   `Charge.array` re-bins the particle frame:  index = np.floor_divide(position, pixel size).astype(int),
+   array[index_ver, index_hor] += number.   Frames are flat, row-major.  Arrays are non-negative (the
+   array -> particle conversion keeps entries > 0 only: zero entries contribute nothing either way). *)
+Record particle := { p_ver : Q; p_hor : Q; p_num : Q }.
+
+Inductive charge_op :=
+| OpArray (a : list Q)                 (* Charge.add_charge_array *)
+| OpParticles (ps : list particle).    (* Charge.add_charge *)
+
+Definition bin_idx (pos size : Q) : Z := Qfloor (pos / size).
+
+Definition particle_in (rows cols : nat) (sv sh : Q) (p : particle) : bool :=
+  let iv := bin_idx (p_ver p) sv in
+  let ih := bin_idx (p_hor p) sh in
+  ((0 <=? iv) && (iv <? Z.of_nat rows) && (0 <=? ih) && (ih <? Z.of_nat cols))%Z.
+
+Definition flat_idx (cols : nat) (sv sh : Q) (p : particle) : nat :=
+  Z.to_nat (bin_idx (p_ver p) sv * Z.of_nat cols + bin_idx (p_hor p) sh).
+
+Fixpoint add_at (k : nat) (v : Q) (l : list Q) : list Q :=
+  match l, k with
+  | [], _ => []
+  | x :: t, O => (x + v) :: t
+  | x :: t, S k' => x :: add_at k' v t
+  end.
+
+Fixpoint bin_particles (cols : nat) (sv sh : Q) (ps : list particle) (acc : list Q) : list Q :=
+  match ps with
+  | [] => acc
+  | p :: t => bin_particles cols sv sh t (add_at (flat_idx cols sv sh p) (p_num p) acc)
+  end.
+
+Fixpoint qadd_list (a b : list Q) : list Q :=
+  match a, b with
+  | x :: a', y :: b' => (x + y) :: qadd_list a' b'
+  | _, _ => []
+  end.
+
+Fixpoint charge_array (cols : nat) (sv sh : Q) (ops : list charge_op) (acc : list Q) : list Q :=
+  match ops with
+  | [] => acc
+  | OpArray a :: t => charge_array cols sv sh t (qadd_list acc a)
+  | OpParticles ps :: t => charge_array cols sv sh t (bin_particles cols sv sh ps acc)
+  end.
+
+(* simple_collection on a detector whose charge was produced by `ops` *)
+Definition collect_ops (cols : nat) (sv sh : Q) (pixel : list Q) (ops : list charge_op) : list Q :=
+  qadd_list pixel (charge_array cols sv sh ops (map (fun _ => 0) pixel)).
+
+Fixpoint particles_total (ps : list particle) : Q :=
+  match ps with [] => 0 | p :: t => p_num p + particles_total t end.
+
+Fixpoint ops_total (ops : list charge_op) : Q :=
+  match ops with
+  | [] => 0
+  | OpArray a :: t => qsum a + ops_total t
+  | OpParticles ps :: t => particles_total ps + ops_total t
+  end.
+
+Definition op_ok (rows cols : nat) (sv sh : Q) (o : charge_op) : bool :=
+  match o with
+  | OpArray a => Nat.eqb (length a) (rows * cols)
+  | OpParticles ps => forallb (particle_in rows cols sv sh) ps
+  end.
+
 (* ------------------------------------------------------------------------------------------ apply_qe *)
 (* array.astype(int): truncation toward zero *)
 Definition qtrunc (p : Q) : Z := if Qlt_le_dec p 0 then Qceiling p else Qfloor p.
@@ -39,11 +108,30 @@ Definition qe_off (q p : Q) : Q := p * q.
    the draw is a parameter (Section variable with its range hypothesis in the proofs) *)
 Definition qe_on (binom : Z -> Q -> Z) (q p : Q) : Q := inject_Z (binom (qtrunc p) q).
 
+(* simple_conversion: the model argument overrides the detector characteristics; a characteristics without a
+   quantum efficiency raises; the selected value must lie in [0, 1] *)
+Definition select_arg (arg char : option Q) : option Q :=
+  match arg with Some a => Some a | None => char end.
+
+Definition qe_select (arg char : option Q) : option Q :=
+  match select_arg arg char with
+  | Some q => if Qle_bool 0 q && Qle_bool q 1 then Some q else None
+  | None => None
+  end.
+
 (* ------------------------------------------------------------------------------------------ full well
    array[array > fwc] = fwc ;  simple_full_well raises for fwc < 0 *)
 Definition full_well (c x : Q) : Q := if Qlt_le_dec c x then c else x.
 Definition simple_full_well (c : Q) (xs : list Q) : option (list Q) :=
   if Qlt_le_dec c 0 then None else Some (map (full_well c) xs).
+
+(* simple_full_well(detector, fwc): the argument overrides detector.characteristics.full_well_capacity; a
+   characteristics without a capacity raises *)
+Definition simple_full_well_sel (arg char : option Q) (xs : list Q) : option (list Q) :=
+  match select_arg arg char with
+  | Some c => simple_full_well c xs
+  | None => None
+  end.
 
 (* ------------------------------------------------------------------------------------------ IPC *)
 Record kernel := { k00 : Q; k01 : Q; k02 : Q; k10 : Q; k11 : Q; k12 : Q; k20 : Q; k21 : Q; k22 : Q }.
@@ -306,12 +394,6 @@ Fixpoint persist_frame (c : pcase) (dt : Q) (j : nat) (pix : list Q) (trap : lis
   | _, _ => ([], [])
   end.
 
-Fixpoint qadd_list (a b : list Q) : list Q :=
-  match a, b with
-  | x :: a', y :: b' => (x + y) :: qadd_list a' b'
-  | _, _ => []
-  end.
-
 (* model run over the steps; true iff every observed step equals the model *)
 Fixpoint persist_agree (c : pcase) (pix : list Q) (trap : list (list Q)) (steps : list pstep) : bool :=
   match steps with
@@ -347,9 +429,15 @@ Definition tol_cdm : Q := 1 # 1000000000.      (* 1e-9 relative: float rounding 
 
 Inductive c15_case :=
 | KCollect (pixel charge out : list Q)
+| KCollectP (rows cols : nat) (sv sh : Q) (pixel : list Q) (ops : list charge_op) (out : list Q)
+                                                                     (* charge as arrays / particles / both *)
 | KQeOff (q : Q) (photon out : list Q)
 | KQeOn (q : Q) (photon out : list Q)
+| KQeSel (sampling : bool) (arg char : option Q) (photon : list Q) (out : option (list Q))
+                                                                     (* simple_conversion; None = raised *)
 | KFullWell (c : Q) (x : list Q) (out : option (list Q * list Q))   (* once, twice; None = raised *)
+| KFullWellS (arg char : option Q) (x : list Q) (out : option (list Q * list Q))
+                                                                     (* simple_full_well, both capacity sources *)
 | KKernel (c d a : Q) (out : option (list Q))                        (* None = raised *)
 | KIpc (c d a : Q) (fr out : frame)
 | KPersist (c : pcase)
@@ -358,17 +446,50 @@ Inductive c15_case :=
 
 Definition kernel_sum_one (l : list Q) : bool := Qeq_bool (qsum l) 1 && Nat.eqb (length l) 9.
 
+(* no prefix of a line, in transfer order, holds more charge than the same prefix received (the traps only
+   hand charge to LATER packets); the last prefix is the line total *)
+Fixpoint prefix_ok (slack : Q) (li lo : list Q) (ai ao : Q) : bool :=
+  match li, lo with
+  | [], [] => true
+  | x :: li', y :: lo' => Qle_bool (ao + y) (ai + x + slack) && prefix_ok slack li' lo' (ai + x) (ao + y)
+  | _, _ => false
+  end.
+
 Definition cdm_spec (lines_in lines_out : list (list Q)) : bool :=
   all2 (fun li lo => Nat.eqb (length li) (length lo) && forallb (Qle_bool 0) lo
-                     && Qle_bool (qsum lo) (qsum li * (1 + tol_cdm))) lines_in lines_out.
+                     && Qle_bool (qsum lo) (qsum li * (1 + tol_cdm))
+                     && prefix_ok (qsum li * tol_cdm) li lo 0 0) lines_in lines_out.
+
+(* photo-conversion, judged per pixel.  Sampling: an integer in [0, floor p]; a draw with success probability
+   1 (0) returns all (none) of its trials, so the charge is exactly floor p (0). *)
+Definition qe_on_ok (q p o : Q) : bool :=
+  is_int o && Qle_bool 0 o && Qle_bool o (inject_Z (Qfloor p))
+  && (if Qeq_bool q 1 then Qeq_bool o (inject_Z (Qfloor p)) else true)
+  && (if Qeq_bool q 0 then Qeq_bool o 0 else true).
+Definition qe_off_ok (q p o : Q) : bool := Qeq_bool o (p * q) && Qle_bool 0 o && Qle_bool o p.
 
 Definition case_mismatch (c : c15_case) : bool :=
   negb match c with
   | KCollect p ch out => qeqs (qadd_list p ch) out && Nat.eqb (length p) (length ch)
+  | KCollectP rows cols sv sh p ops out =>
+      qeqs (collect_ops cols sv sh p ops) out && forallb (op_ok rows cols sv sh) ops
+      && Nat.eqb (length p) (rows * cols)
   | KQeOff q ph out => qeqs (map (qe_off q) ph) out
   | KQeOn q ph out => Nat.eqb (length ph) (length out)       (* the draw itself is not modelled *)
+  | KQeSel samp arg char ph out =>
+      match qe_select arg char, out with
+      | None, None => true
+      | Some q, Some o => if samp then Nat.eqb (length ph) (length o) else qeqs (map (qe_off q) ph) o
+      | _, _ => false
+      end
   | KFullWell c x out =>
       match simple_full_well c x, out with
+      | None, None => true
+      | Some m, Some (o1, o2) => qeqs m o1 && qeqs m o2
+      | _, _ => false
+      end
+  | KFullWellS arg char x out =>
+      match simple_full_well_sel arg char x, out with
       | None, None => true
       | Some m, Some (o1, o2) => qeqs m o1 && qeqs m o2
       | _, _ => false
@@ -397,13 +518,33 @@ Definition case_mismatch (c : c15_case) : bool :=
 Definition case_violates (c : c15_case) : bool :=
   negb match c with
   | KCollect p ch out => all2 (fun pc o => Qeq_bool (fst pc + snd pc) o) (combine p ch) out
-  | KQeOff q ph out => all2 (fun p o => Qeq_bool o (p * q) && Qle_bool 0 o && Qle_bool o p) ph out
-  | KQeOn q ph out =>
-      all2 (fun p o => is_int o && Qle_bool 0 o && Qle_bool o (inject_Z (Qfloor p))) ph out
+  | KCollectP rows cols sv sh p ops out =>
+      (* every pixel receives exactly the charge generated for it, however the charge is held *)
+      all2 (fun pc o => Qeq_bool (fst pc + snd pc) o)
+           (combine p (charge_array cols sv sh ops (map (fun _ => 0) p))) out
+      && Qeq_bool (qsum out) (qsum p + ops_total ops)
+  | KQeOff q ph out => all2 (qe_off_ok q) ph out
+  | KQeOn q ph out => all2 (qe_on_ok q) ph out
+  | KQeSel samp arg char ph out =>
+      (* the efficiency is the argument when given, else the characteristics' (0.0 is a given argument) *)
+      match arg, char, out with
+      | None, None, _ => match out with None => true | Some _ => false end
+      | Some q, _, Some o | None, Some q, Some o =>
+          Qle_bool 0 q && Qle_bool q 1 && all2 (if samp then qe_on_ok q else qe_off_ok q) ph o
+      | Some q, _, None | None, Some q, None => negb (Qle_bool 0 q && Qle_bool q 1)
+      end
   | KFullWell c x out =>
       match out with
       | None => Qltb c 0
       | Some (o1, o2) => negb (Qltb c 0) && all2 (fun v o => Qeq_bool o (qmin v c)) x o1 && qeqs o1 o2
+      end
+  | KFullWellS arg char x out =>
+      (* capacity = the argument when given (it overrides), else the characteristics'; neither: raises *)
+      match arg, char, out with
+      | None, None, _ => match out with None => true | Some _ => false end
+      | Some c, _, None | None, Some c, None => Qltb c 0
+      | Some c, _, Some (o1, o2) | None, Some c, Some (o1, o2) =>
+          negb (Qltb c 0) && all2 (fun v o => Qeq_bool o (qmin v c)) x o1 && qeqs o1 o2
       end
   | KKernel c d a out =>
       match out with
